@@ -126,7 +126,7 @@ CLAIMED["C19"] = dict(
 
 CLAIMED["C06"] = dict(
     category="model_checking",
-    text="All 126 host roles: (1) table agreement (arity vs declared classifier vs stack-IR table, names); (2) each role executed through Computation::Prim on a live Runtime with the full cross product of per-atom boundary domains read off its declared classifier (21k calls quick), generic oracle = exactly the declared arguments consumed and a result / continuation selection of the declared shape, plus an independent Vec<char> reference for the 16 text/bytes/char roles; (3) explicit-state exploration of every I/O operation sequence of length <= 3 (thorough 4) over a 25-operation alphabet on one live runtime against a handle/file model (closed handles stay closed, failures on the error continuation with the predicted kind, bytes equal the model); (4) for every role, the declared signature rendered to source is accepted and runs, and every one-position mutation of the classifier tree (6.4k mutants), relabelling to other roles and duplication is rejected. Decides the property on these domains; argument values outside the boundary domains and OS-level I/O failures other than missing path / closed handle are not covered.",
+    text="All 126 host roles: (1) table agreement (arity vs declared classifier vs stack-IR table, names); (2) each role executed through Computation::Prim on a live Runtime with the full cross product of per-atom boundary domains read off its declared classifier (21k calls quick), generic oracle = exactly the declared arguments consumed and a result / continuation selection of the declared shape, plus an independent Vec<char> reference for the 16 text/bytes/char roles; (3) explicit-state exploration of every I/O operation sequence of length <= 3 (thorough 4) over a 25-operation alphabet on one live runtime against a handle/file model (closed handles stay closed, failures on the error continuation with the predicted kind, bytes equal the model); (4) for every role, the declared signature rendered to source is accepted and runs, and every one-position mutation of the classifier tree (6.4k mutants), relabelling to other roles and duplication is rejected; (5) 492 closed source programs call each role through a minimal Builtin signature (role first / last, two argument tuples) and print exactly what the Prim-level call gives. Decides the property on these domains; argument values outside the boundary domains and OS-level I/O failures other than missing path / closed handle are not covered.",
     design_ref="C06",
     note="Trusts the harness's reading of the classifier (BuiltinOperationAbi::for_role is the declared type; lib/std/builtin.zy is tied to it by the repository's own acceptance of the standard library, exercised by every corpus program) and the marker-thunk decoding of continuation selection.",
     technique="exhaustive enumeration of roles x boundary argument tuples, of all short I/O operation sequences against a reference model, and of all one-position signature mutations, on the real code",
